@@ -963,6 +963,39 @@ def rule_E10(prog):
             for x, y in ((cond[2], cond[3]), (cond[3], cond[2])):
                 if is_affix(fnx, x) and term_str(G.strip(m.expand(y, depth=2))) in (lk, lk2):
                     return "a dominating `==` equates the length with a common prefix/suffix length"
+        # (f) the comparison written inline: `(a0..a1).zip(b0..b1).take_while(|&(a, b)| new[b] == old[a]).count()` with the two
+        #     ranges starting at the reported positions
+        Le = G.strip(m.expand(L, depth=3))
+        if isinstance(Le, tuple) and Le and Le[0] == "call" and str(Le[1]).endswith("::count") and Le[2] and Oop is not None and Nop is not None:
+            tw = G.strip(Le[2][0])
+            if isinstance(tw, tuple) and tw and tw[0] == "call" and "::take_while" in str(tw[1]) and tw[2]:
+                zp = G.strip(m.expand(tw[2][0], depth=3))
+                cal = tw[3] if len(tw) > 3 else None
+                cfs = [prog.fn(a.get("path", "")) for a in (cal or {}).get("args", []) if isinstance(a, dict) and a.get("k") == "closure"]
+                cfs = [x for x in cfs if x is not None and x.mir]
+                if isinstance(zp, tuple) and zp and zp[0] == "call" and "::zip" in str(zp[1]) and len(zp[2]) == 2 and len(cfs) == 1:
+                    starts = []
+                    for rg in zp[2]:
+                        rg = G.strip(m.expand(rg, depth=3))
+                        if isinstance(rg, tuple) and rg and rg[0] == "aggregate" and "start" in rg[2]:
+                            starts.append(_fmt(norm(lin(m, m.expand(rg[2]["start"], depth=3)))))
+                    want = sorted([_fmt(norm(lin(m, opos))), _fmt(norm(lin(m, npos)))])
+                    # the closure compares an element of one sequence with an element of the other, indexed by its two
+                    # parameters (the components of the zipped pair)
+                    cm = cfs[0].mir
+                    cmp_ok = False
+                    for cb, ct in cm.calls():
+                        cc = cm.callee(ct) or {}
+                        if cc.get("trait") == PEQ and cc.get("method") in ("eq", "ne") and len(ct["args"]) == 2:
+                            idx_roots = set()
+                            for a in ct["args"]:
+                                term = G.strip(cm.resolve_operand(a))
+                                if isinstance(term, tuple) and term and term[0] == "call" and len(term) > 3 and (term[3] or {}).get("trait") == IDX and len(term[2]) == 2:
+                                    idx_roots |= {l for l in G.roots(cm.expand(term[2][1], depth=3))}
+                            if idx_roots and all(l >= 2 or l == 0 for l in idx_roots) and cc.get("method") == "eq":
+                                cmp_ok = True
+                    if len(starts) == 2 and sorted(starts) == want and cmp_ok:
+                        return "count of a take_while over the two ranges zipped from the reported positions, comparing the paired items"
         # (e) a parameter of a private helper: every call site must pass a backed value
         pi = param_index(m, Lop)
         if pi is not None and depth < 2:
